@@ -662,6 +662,10 @@ func checkQueues(queue *QueueConfig, level int) error {
 		if err != nil {
 			return err
 		}
+		// the name root is reserved for the top of the hierarchy: a queue with that name never gets its resources set
+		if strings.ToLower(child.Name) == RootQueue {
+			return fmt.Errorf("queue name '%s' is reserved for the root queue, level %d", child.Name, level)
+		}
 		if queueMap[strings.ToLower(child.Name)] {
 			return fmt.Errorf("duplicate child name found with name '%s', level %d", child.Name, level)
 		}
